@@ -7,9 +7,12 @@ package hessian
 
 import (
 	"encoding/json"
+	"fmt"
 	"math"
 	"os"
 	"reflect"
+	"sort"
+	"strings"
 )
 
 type vInput struct {
@@ -138,8 +141,123 @@ func vSymbolic() bool            { return false }
 // vArith(1): ask the engine to render this harness's path condition as wrapped integer arithmetic first.
 func vArith(mode int) {}
 func vTrace()                    {}
-func vFreeze(x interface{}, label string) {}
-func vFreezeGlobals(label string) {}
+// vFreeze: the engine marks everything reachable from x read-only and reports any store. Natively a deep
+// fingerprint is taken and compared when the harness ends, so that a reported store can be confirmed by replay.
+type vFrozenRec struct {
+	label string
+	x     interface{}
+	fp    string
+}
+
+var vFrozenList []vFrozenRec
+
+func vFreeze(x interface{}, label string) {
+	vFrozenList = append(vFrozenList, vFrozenRec{label, x, vFingerprint(x)})
+}
+
+func vFreezeGlobals(label string) {
+	vFreeze(_buildInTypeNameMap, label)
+	vFreeze(&StringChunkSizeBytes, label)
+	vFreeze(&_binaryChunkSizeBytes, label)
+	vFreeze(&strChunkSize, label)
+	vFreeze(&_binChunkSize, label)
+}
+
+// vFrozenChanged returns the label of the first frozen root whose contents changed ("" if none).
+func vFrozenChanged() string {
+	for _, f := range vFrozenList {
+		if vFingerprint(f.x) != f.fp {
+			return f.label
+		}
+	}
+	return ""
+}
+
+func vFingerprint(x interface{}) string {
+	var sb strings.Builder
+	vPrintDeep(&sb, reflect.ValueOf(x), map[uintptr]bool{}, 0)
+	return sb.String()
+}
+
+func vPrintDeep(sb *strings.Builder, v reflect.Value, seen map[uintptr]bool, depth int) {
+	if !v.IsValid() || depth > 40 {
+		sb.WriteString("<nil>")
+		return
+	}
+	switch v.Kind() {
+	case reflect.Ptr:
+		if v.IsNil() {
+			sb.WriteString("nil")
+			return
+		}
+		if seen[v.Pointer()] {
+			sb.WriteString("<seen>")
+			return
+		}
+		seen[v.Pointer()] = true
+		sb.WriteString("&")
+		vPrintDeep(sb, v.Elem(), seen, depth+1)
+	case reflect.Interface:
+		if v.IsNil() {
+			sb.WriteString("nil")
+			return
+		}
+		vPrintDeep(sb, v.Elem(), seen, depth+1)
+	case reflect.Struct:
+		sb.WriteString(v.Type().String() + "{")
+		for i := 0; i < v.NumField(); i++ {
+			vPrintDeep(sb, v.Field(i), seen, depth+1)
+			sb.WriteString(",")
+		}
+		sb.WriteString("}")
+	case reflect.Slice, reflect.Array:
+		if v.Kind() == reflect.Slice && v.IsNil() {
+			sb.WriteString("nilslice")
+			return
+		}
+		sb.WriteString("[")
+		for i := 0; i < v.Len(); i++ {
+			vPrintDeep(sb, v.Index(i), seen, depth+1)
+			sb.WriteString(",")
+		}
+		sb.WriteString("]")
+	case reflect.Map:
+		if v.IsNil() {
+			sb.WriteString("nilmap")
+			return
+		}
+		keys := v.MapKeys()
+		strs := make([]string, 0, len(keys))
+		for _, k := range keys {
+			var kb, vb strings.Builder
+			vPrintDeep(&kb, k, seen, depth+1)
+			vPrintDeep(&vb, v.MapIndex(k), seen, depth+1)
+			strs = append(strs, kb.String()+":"+vb.String())
+		}
+		sort.Strings(strs)
+		sb.WriteString("map[" + strings.Join(strs, ",") + "]")
+	case reflect.Chan, reflect.Func, reflect.UnsafePointer:
+		sb.WriteString(v.Type().String())
+	default:
+		sb.WriteString(fmt.Sprintf("%v", vPlain(v)))
+	}
+}
+
+func vPlain(v reflect.Value) interface{} {
+	switch v.Kind() {
+	case reflect.Bool:
+		return v.Bool()
+	case reflect.Int, reflect.Int8, reflect.Int16, reflect.Int32, reflect.Int64:
+		return v.Int()
+	case reflect.Uint, reflect.Uint8, reflect.Uint16, reflect.Uint32, reflect.Uint64, reflect.Uintptr:
+		return v.Uint()
+	case reflect.Float32, reflect.Float64:
+		return math.Float64bits(v.Float())
+	case reflect.String:
+		return v.String()
+	}
+	return v.Type().String()
+}
 
 // vTier: 0 quick, 1 thorough.
 func vTier() int {
